@@ -226,7 +226,13 @@ func (h *DNSHandler) ProcessNBNS(host *packet.Host, ether packet.Ether, payload 
 		return name, err
 	}
 	if Debug {
+		if host != nil {
+			host.MACEntry.Row.RLock() // host fields are protected by the row lock
+		}
 		Logger.Msg("new nbns packet").Stringer(host).Struct(dns).Write()
+		if host != nil {
+			host.MACEntry.Row.RUnlock()
+		}
 	}
 	var p dnsmessage.Parser
 	dnsHeader, err := p.Start(payload)
